@@ -4,6 +4,7 @@ import re
 from engine import guards as G
 from engine import mir, panics
 from . import common as K
+from . import detectors as D
 from . import panic_review
 from .common import A, fshort
 
@@ -203,127 +204,13 @@ def ob_sanitise_tx(run, oid):
         o.check(len(sp) >= 1, "produce_slice_payload|space-reservation", "the loop stops when fewer than MAX_TRANSACTION_SIZE + 8 bytes are left", b.span)
 
 
-LOCK_TYPES = (("RwLockWriteGuard<", "write"), ("RwLockReadGuard<", "read"), ("MutexGuard<", "lock"))
-
-
-def lock_name(ty):
-    m = re.search(r"Guard<'?[^,>]*,?\s*(?:dyn )?([A-Za-z0-9_:]+)", ty)
-    s = m.group(1) if m else ty
-    return s.rsplit("::", 1)[-1]
-
-
-def lock_id(b, local, ty):
-    """identity of the lock a guard local belongs to: the field / captured variable the lock call was made on, else the protected type"""
-    pv_term = b.local_term(local)
-    seen = set()
-    stack = [pv_term]
-    # follow multi-def locals through provenance-like expansion
-    name = None
-    terms = [pv_term]
-    for d in b.defs().get(local, []):
-        if d[0] == "stmt":
-            terms.append(b.rvalue_term(d[3]["rv"]))
-        elif d[0] == "call":
-            terms.append(b.call_term(d[1], d[3]))
-    for t in terms:
-        for x in mir.walk(t):
-            if isinstance(x, tuple) and x and x[0] == "call" and (x[1].endswith("RwLock::read") or x[1].endswith("RwLock::write") or x[1].endswith("Mutex::lock") or x[1].endswith("RwLock<T>::read") or x[1].endswith("RwLock<T>::write") or x[1].endswith("Mutex<T>::lock")):
-                recv = x[2][0]
-                for y in mir.walk(recv):
-                    if isinstance(y, tuple) and y and y[0] == "field":
-                        name = y[2]
-                        break
-                    if isinstance(y, tuple) and y and y[0] == "upvar":
-                        name = y[1]
-                        break
-                if name:
-                    return name
-    return lock_name(ty)
-
-
 def ob_lock_order(run, oid):
     prog = run.program("lib")
     o = run.ob(oid, "no lock-order cycle between the shared pool / blockstore / network locks",
                "two tasks taking the same two locks in opposite order deadlock: the node stops voting, producing and repairing without crashing", floor=3)
-    # per body: guard locals
-    acquires = {}    # body -> [(local, lockname, mode, def_bbs, release_bbs)]
-    direct_locks = {}
-    for d, b in prog.bodies.items():
-        if b.generated:
-            continue
-        ls = []
-        for i, l in enumerate(b.locals):
-            for pat, mode in LOCK_TYPES:
-                if pat in l["ty"] and not l["ty"].startswith("&") and "Future" not in l["ty"] and "Poll<" not in l["ty"] and "impl " not in l["ty"]:
-                    defs = [x[1] for x in b.defs().get(i, [])]
-                    rel = []
-                    for bl in b.blocks:
-                        t = bl["term"]
-                        if (t["k"] == "drop" and t["pl"]["l"] == i and not t["pl"]["p"]) or any(st["k"] == "dead" and st["l"] == i for st in bl["stmts"]):
-                            rel.append(bl["id"])
-                        # moved away (drop(guard), returned, stored): the range ends here as well
-                        if t["k"] == "call" and any(a.get("m", {}).get("l") == i and not a["m"]["p"] for a in t["args"]):
-                            rel.append(bl["id"])
-                        for st in bl["stmts"]:
-                            if st["k"] == "assign" and st["rv"]["k"] == "use" and st["rv"]["a"].get("m", {}).get("l") == i and not st["rv"]["a"]["m"]["p"]:
-                                rel.append(bl["id"])
-                    if defs:
-                        ls.append((i, lock_id(b, i, l["ty"]), mode, defs, rel))
-        if ls:
-            acquires[d] = ls
-            direct_locks[d] = set((n, m) for (_i, n, m, _d, _r) in ls)
-    # transitive lock sets
-    cg = prog.callgraph()
-    trans = {d: set(v) for d, v in direct_locks.items()}
-    changed = True
-    allb = list(prog.bodies)
-    while changed:
-        changed = False
-        for d in allb:
-            for c in cg.get(d, ()):
-                add = trans.get(c, set()) - trans.get(d, set())
-                if add:
-                    trans.setdefault(d, set()).update(add)
-                    changed = True
-    edges = {}
-    nranges = 0
-    for d, ls in acquires.items():
-        b = prog.bodies[d]
-        for (i, name, mode, defs, rel) in ls:
-            nranges += 1
-            live = set()
-            for db in defs:
-                live |= b.reachable(db, removed_blocks=[r for r in rel if r != db])
-            for (j, name2, mode2, defs2, rel2) in ls:
-                if j != i and any(x in live for x in defs2) and name2 != name:
-                    edges.setdefault((name, name2), []).append((fshort(d), b.blocks[defs2[0]]["term"].get("sp", "")))
-            for c in b.calls():
-                if c.bb in live:
-                    for t in prog.callees_of_site(c):
-                        for (n2, m2) in trans.get(t, ()):
-                            if n2 != name:
-                                edges.setdefault((name, n2), []).append((fshort(d), c.span))
-                            elif mode == "write" or m2 == "write":
-                                edges.setdefault((name, name), []).append((fshort(d), c.span))
-    run.notes.append("O10.4: %d guard live ranges in %d bodies; lock-order edges: %s" % (nranges, len(acquires), sorted("%s->%s" % k for k in edges) or "none"))
-    o.ok("guards-analysed", "%d lock guard live ranges analysed in %d bodies" % (nranges, len(acquires)), "")
-    # cycles
-    names = set(x for e in edges for x in e)
-    adj = {n: set() for n in names}
-    for (a, c) in edges:
-        adj[a].add(c)
-    cyc = []
-    for (a, c) in edges:
-        if a == c:
-            cyc.append([a, a])
-    def dfs(start, node, path):
-        for n in adj.get(node, ()):
-            if n == start and len(path) > 1:
-                cyc.append(path + [start])
-            elif n not in path and len(path) < 6:
-                dfs(start, n, path + [n])
-    for n in names:
-        dfs(n, n, [n])
+    edges, cyc, nranges, nbodies = D.lock_graph(prog)
+    run.notes.append("O10.4: %d guard live ranges in %d bodies; lock-order edges: %s" % (nranges, nbodies, sorted("%s->%s" % k for k in edges) or "none"))
+    o.check(nranges >= 20, "guards-analysed", "%d lock guard live ranges analysed in %d bodies" % (nranges, nbodies), "")
     if not cyc:
         o.ok("lock-graph|acyclic", "lock-order graph is acyclic (edges: %s)" % (sorted("%s->%s" % k for k in edges) or "none"), "")
     for cy in cyc[:5]:
@@ -331,7 +218,6 @@ def ob_lock_order(run, oid):
         o.fail("lock-graph|cycle|%s" % "->".join(cy), "lock-order cycle %s" % " -> ".join(cy), wit[1], {"witnesses": {"%s->%s" % k: v[:3] for k, v in edges.items()}})
     for k, v in sorted(edges.items()):
         o.ok("lock-graph|edge|%s->%s" % k, "%s is acquired while %s is held (%d site(s)), e.g. in %s" % (k[1], k[0], len(v), v[0][0]), v[0][1])
-    # validation before the pool lock (C09 O9.9) is part of the same discipline: re-checked there
 
 
 def ob_error_discipline(run, oid):
